@@ -6,6 +6,46 @@ ALL = ["C%02d" % i for i in range(1, 21)]
 
 # id -> (level, technique, level text, level note, design ref)
 CHECKS = {
+    "C02": ("exploration",
+            "runtime monitoring: strict independent backend-grammar parser over every server byte (generated handler programs + hostile client inputs) and a model-based monitor of the public buffer.Writer API over a transiently failing sink",
+            "Handler programs drawn from a grammar (columns, rows, abandoned frames, tags, decorated errors, COPY) and structure-aware mutations of client sessions are run against the real server; the whole server-to-client stream of each connection must parse exactly. Held-on-observed.",
+            "Trusts the strict parser written from the protocol documentation; NUL-free handler strings assumed.",
+            "DESIGN.md 4/C02"),
+    "C03": ("exploration",
+            "runtime monitoring: metamorphic oracle (same bytes under 6-12 segmentations; with/without surplus bytes) + independent-cursor differential monitor for the buffer.Reader accessors, checkptr build, child-process crash oracle",
+            "Generated client streams (SSL/auth/simple/extended/COPY, truncated) are delivered all-at-once, per byte, cut inside every header and at random cut sets; transcripts and callback traces must be identical; surplus bytes inside a message's declared length must not change anything or reach a callback; accessor results are compared with an independent cursor. Held-on-observed.",
+            "ParameterStatus order normalised; after an accessor error the sequence is not judged further.",
+            "DESIGN.md 4/C03"),
+    "C04": ("fault_enumeration",
+            "runtime monitoring with exhaustive fault injection at the transport (every k-th Read, k-th Write, every inbound byte offset of each canonical session) + structure-aware input mutation; oracles: child-process crash oracle, close/spin/leak detectors, probe connections, allocation profile sanitizer (MemProfileRate=1), no-fabrication frame model",
+            "For each canonical session the fault-free run's reads, writes and bytes are measured and every fault position is then injected (error, EOF, short write); mutated inputs are run in every phase. The process must survive, the connection must end, nothing may leak, allocations stay under 8L+4MiB, and callbacks only see data carried by well-framed input. Exhaustive over fault positions of the listed sessions; held-on-observed for mutations.",
+            "Faults are injected at the net.Conn boundary (where the library observes them); allocation bound has an additive constant (see assumptions).",
+            "DESIGN.md 4/C04"),
+    "C10": ("exploration",
+            "runtime monitoring: enumerated (limit x size x type x position) grid with a boundary model, a resynchronisation probe and an allocation-profile sanitizer (one child process per limit)",
+            "Bodies of L-1, L (processed; callback sees exact content) and L+1.. (skipped; exactly one ERROR/54000; Sync + unique probe Query answered normally) for 12 limits, 13 message types and 7 positions incl. COPY mode, password and startup packet; declared-only 2^31..2^32 lengths and sub-minimum lengths; no library object above 4L+64KiB. Exhaustive grid in thorough, seeded subset in quick.",
+            "After an oversized extended message E or E Z is accepted (C06 open reading).",
+            "DESIGN.md 4/C10"),
+    "C11": ("exploration",
+            "runtime monitoring on a raw wire tap under a crypto/tls client: TLS record-layer parser, canary search, TLS-vs-plaintext metamorphic equality, stuffing and raw-injection monitors",
+            "Sessions from the C15 generator run inside TLS 1.2/1.3 and in plaintext; reply to SSLRequest must be exactly S/N, every raw server byte after S must be a TLS record, canaries never appear in the raw stream, decrypted transcript/trace equal the plaintext run, plaintext stuffed before the handshake or injected under the session never reaches a callback. Held-on-observed.",
+            "crypto/tls trusted for cryptography; self-signed certificate generated in-process.",
+            "DESIGN.md 4/C11"),
+    "C12": ("exploration",
+            "runtime monitoring: startup model with ParameterStatus multiset comparison, context reads inside callbacks, map snapshot comparison, concurrent connects under the Go race detector with yield injection",
+            "Generated startup packets (duplicates, empty/unicode/long values, malformed) x server configurations (global maps with colliding keys, version, auth); reply order and multiset, handler-visible client/server parameters, username, remote address, non-mutation of the configured map, 2-64 concurrent users, CancelRequest at three negotiation stages. Held-on-observed.",
+            "For duplicated keys any sent value is accepted.",
+            "DESIGN.md 4/C12"),
+    "C18": ("exploration",
+            "runtime monitoring: retention monitor - callbacks keep the library's own strings/slices without copying and re-compare them with the harness's record of what was sent after every later callback and at connection end; checkptr build",
+            "Histories of 5-200 later messages around the 4 KiB granule and the limit, oversized skipped messages, COPY streams, unread tails, late execution of old portals, for L in {4096, 8192, 65536}. Held-on-observed.",
+            "The harness's reference copies come from what it sent, never from callback arguments.",
+            "DESIGN.md 4/C18"),
+    "C19": ("exploration",
+            "runtime monitoring: middleware/context/terminate monitors with transport write-offset positions; exhaustive (n, failing position, auth, hook, ending) grid x generated histories",
+            "Every middleware records order, predecessor values and the server's write offset (must lie after AuthenticationOk and before the first ReadyForQuery); callbacks verify context contents and liveness; captured command contexts must be cancelled afterwards; failing middleware ends the connection unserved; terminate hook exactly once iff Terminate. Exhaustive grid, held-on-observed histories.",
+            "Same-goroutine ordering makes write offsets exact.",
+            "DESIGN.md 4/C19"),
     "C13": ("exploration",
             "runtime monitoring: COPY-in reference model vs per-step replies and the chunks/errors recorded by a scripted COPY handler (exhaustive short sequences + random)",
             "Exhaustive message sequences to length 3 x 7 terminators x 4 handler variants plus random longer ones, simple and Execute mode, lock-step; chunk bytes/order, Flush/Sync invisibility, CopyDone=EOF, abort=non-EOF error, exactly one E and one Z per aborted cycle, silence for stray COPY messages. Held-on-observed.",
